@@ -135,7 +135,8 @@ class ErrorHandling:
                 # make up a token
                 token = Token()
                 token.type = token_name
-                token.value = value
+                # a made-up literal carries a text that its grammar action can read
+                token.value = {'[number]': '0', '[string]': "''"}.get(value, value)
                 token.end = 0
                 token.index = 0
                 token.lineno = 0
